@@ -20,7 +20,7 @@ import z3
 
 from pyvc.core import (SV, SInt, SBool, SSeq, SDict, Obj, Val, VNone, BoolS, IntS, Cls, to_val, to_int, to_bool_term,
                        PyRaise, Unsupported, Stub, cls_of, seq_len, str_id, VStr)
-from pyvc.driver import Ob
+from pyvc.driver import Ob, cover_hyps
 from pyvc.ground import Q
 from pyvc.interp import Interp
 from pyvc.builtins_model import install
@@ -547,7 +547,7 @@ def run(chk, fname, values_only):
             del chk.obs[n_before:]
             for nm in (VALUE_CLAUSES if values_only else ITEM_CLAUSES):
                 chk.add(Ob(func, nm, f"p{pi}", path.hyps, z3.BoolVal(False), {"engine": f"Unsupported {e}"}))
-    chk.add(Ob(func, "cover", "pre", results[0][0].hyps, z3.BoolVal(True), expect="sat"))
+    chk.add(Ob(func, "cover", "pre", cover_hyps(results), z3.BoolVal(True), expect="sat"))
     chk.trusted.update(I.assumed_used)
     chk.functions.update(q for q in I.called if q.startswith("typelib."))
     chk.extra_coverage.setdefault("paths", {})[func] = len(results)
